@@ -145,6 +145,25 @@ def check_tensor(c):
                                   lambda: 'values (%r, %r) vs entries (%r, %r)' % (z1, z2, A[tuple(j1)], A[tuple(j2)]), tags)
                     res.check(z1 <= z2 + 1e-12 * max(amax, 1e-300) + 1e-13 * aabs, 'maxvol.order', case, lambda: 'min %r > max %r' % (z1, z2), tags)
     res.check(ref.core_bytes(Y) == Yb, 'input_untouched', c, 'tensor modified by an optimum search', tags)
+    # extreme magnitudes: the optimum search must return the same entries, scaled
+    if c.get('scaled'):
+        for sc in (2.0 ** -400, 2.0 ** 400):
+            Ys = [G * (sc if k == 0 else 1.0) for k, G in enumerate(Y)]
+            for k in (1, N + 1):
+                res.ev()
+                case = dict(c, k=k, scale=sc)
+                with warnings.catch_warnings():
+                    warnings.simplefilter('ignore')
+                    i1, y1, i2, y2 = teneva.optima_tt(Ys, k)
+                    j, yj = teneva.optima_tt_max(Ys, k)
+                ok = _inb(i1, shape) and _inb(i2, shape) and _inb(j, shape)
+                if res.check(ok, 'scaled.bounds', case, 'index out of bounds', tags):
+                    t = 1e-12 * amax
+                    res.check(abs(y1 / sc - A[tuple(i1)]) <= t and abs(y2 / sc - A[tuple(i2)]) <= t and abs(yj / sc - A[tuple(j)]) <= t and y1 <= y2,
+                              'scaled.entry', case, lambda: 'scaled by %g: values (%r, %r, %r) are not the scaled entries' % (sc, y1, y2, yj), tags)
+                    if k >= N or rank1:
+                        res.check(abs(yj) / sc >= amax - 1e-9 * amax and y1 / sc <= tmin + 1e-9 * amax and y2 / sc >= tmax - 1e-9 * amax, 'scaled.full', case,
+                                  lambda: 'scaled by %g: optimum not found with k=%d' % (sc, k), tags + ['full'])
     return res
 
 
@@ -268,7 +287,7 @@ def strata(tier, seed):
         for sh in space.shapes([d], ns):
             for rk in space.rank_profiles(d, rs):
                 for pat in pats:
-                    cs.append(dict(shape=sh, ranks=rk, pat=pat, seed=seed))
+                    cs.append(dict(shape=sh, ranks=rk, pat=pat, seed=seed, scaled=(pat in ('gen', 'intA') and d <= 3)))
     for sh in ([3, 3, 3, 3], [4, 4, 4], [5, 5, 5, 5], [4, 4], [3, 3, 3]):
         for spike in (2.5, -2.5, 3.0, -3.0, 1.5):
             for corner in ('hi', 'lo'):
